@@ -59,8 +59,10 @@ def parseOp (ws : List String) : Option RepOp :=
   | ["mode", m] => do some (.setMode (← parseMode m))
   | ["setrev", a] => do some (.setRev (← a.toNat?))
   | ["ckpt", s] => some (.setCkpt s)
-  | ["rbbegin", n] => some (.rbBegin n)
-  | ["rbbegin", n, "real"] => some (.rbBegin n)    -- the whole procedure run by sync.Task.AddReplica
+  | ["rbbegin", n] => some (.rbBegin n false)
+  | ["rbbegin", n, "real"] => some (.rbBegin n false)    -- the whole procedure run by sync.Task.AddReplica
+  | ["rbbegin", n, "stale", "real"] => some (.rbBegin n true)   -- the newcomer returns with the directory kept by `stash`
+  | ["stash"] => some .stash
   | ["rbreload"] => some .rbReload
   | ["lunmap"] => some .lunmap
   | ["rbpromote"] => some .rbPromote
